@@ -639,10 +639,12 @@ def classify(ops, full_obs, verdict):
     elif before.get("class_state"):
         cls = "class-attr-latch"
         site = before["class_state"][0] + " @ " + site
-    elif op[0] in READ_OPS and before.get("log"):
-        cls = "log-leak"
+    elif op[0] in READ_OPS and before.get("log") and (not before.get("queue") or verdict["with_others"].get("v") == "ParsingError"):
+        cls = "log-leak"  # a dirty log makes parse() return None: ParsingError
     elif op[0] in READ_OPS and before.get("queue"):
         cls = "queue-leak"
+    elif op[0] in READ_OPS and before.get("log"):
+        cls = "log-leak"
     elif copy_family:
         cls = "deepcopy-aliasing"
     elif op[0] in ("write", "report"):
@@ -851,7 +853,11 @@ def report_interleave(chk, case, first_verdict):
         return
     sig0 = classify(case["ops"], ev["full"], v)
     if _seen(sig0) >= 2:  # already minimised twice for this signature: count it, keep the smaller replay
-        chk.violation(sig0, f"{sig0['class']} at {sig0['site']}", {"case": {k: case[k] for k in ("kind", "ops")}, "verdict": v})
+        chk.violation(
+            sig0,
+            f"{sig0['class']} at {sig0['site']}: problem {v['focus']} behaves differently when operations on unrelated problems precede it",
+            {"case": {k: case[k] for k in ("kind", "ops")}, "verdict": v},
+        )
         return
     small = interleave_shrink(case, v) or case
     ev2 = interleave_eval(small)
